@@ -334,6 +334,9 @@ class World:
             if row.evt == '*':
                 e2 = ev.plain()
                 e2.anyof = True
+            elif row.evt is not None and row.evt != ev.name:
+                # base-class trigger: the behaviours see the event through a reference to the trigger type
+                e2 = Ev(row.evt, ev.serial)
             if row.g:
                 csrc = st.sid if ev.name is None else -1
                 if not self.callback('G', ms, row.gid, e2, csrc):
@@ -355,6 +358,8 @@ class World:
             if ir.evt == '*':
                 e2 = ev.plain()
                 e2.anyof = True
+            elif ir.evt != ev.name:
+                e2 = Ev(ir.evt, ev.serial)
             if ir.g and not self.callback('G', ms, ir.gid, e2):
                 res |= HG
                 continue
@@ -576,7 +581,9 @@ class BackWorld(World):
         return self.pei(ms, ev, DIRECT)
 
     def api_enqueue(self, ms: MS, ev: Ev):
-        ev.flags = MSGQ
+        # PROPERTY (C06/C13): an event enqueued on a machine is an event sent to that machine: if nothing
+        # handles it, that machine reports no_transition, as for process_event
+        ev.flags = DIRECT | MSGQ
         ms.queue.append(ev)
 
     def api_defer(self, ms: MS, ev: Ev):
